@@ -134,7 +134,8 @@ impl Profile {
             return Profile::custom([vec![0], vec![0], vec![0]], &per);
         }
         let first: &[(usize, &[u8])] = &[(D_OWNER, &[0, 1]), (D_TTL, &[0, 1, 2]), (D_CLASS, &[0, 1])];
-        let next: &[(usize, &[u8])] = &[(D_OWNER, &[0, 1, 3]), (D_TTL, &[0, 1, 2]), (D_CLASS, &[0, 1]), (D_BLANK, &[0, 1])];
+        // separators {space, tab, runs}: a TAB as the leading blank of an inherited owner
+        let next: &[(usize, &[u8])] = &[(D_OWNER, &[0, 1, 3]), (D_TTL, &[0, 1, 2]), (D_CLASS, &[0, 1]), (D_SEP, &[0, 1, 2])];
         Profile::custom([vec![0], vec![0], vec![0, 1]], &[first, next])
     }
 
